@@ -2,8 +2,9 @@
 from mirsym.harness import Check
 from .C01 import ASSUME
 
-QUICK = [(["1s"], False), (["2m"], False), (["1s", "1m"], False), (["1s", "2s"], True), (["1h"], True), (["0s", "0m"], False), (["1d", "1s"], False)]
-THOROUGH = QUICK + [(["2s", "2m", "2h"], False), (["1m", "1s"], True), (["3s", "1m", "1s"], False)]
+QUICK = [(["1s"], False), (["2m"], False), (["1s", "1m"], False), (["1s", "2s"], True), (["1h"], True), (["0s", "0m"], False), (["1d", "1s"], False),
+         (["1s", "1s"], "both"), (["2s", "1s"], "both")]   # "both": rule 0 on the step, the others on its act
+THOROUGH = QUICK + [(["1m", "1m", "1s"], "both"), (["2s", "2m", "2h"], False), (["1m", "1s"], True), (["3s", "1m", "1s"], False)]
 
 
 def main(tier, seed):
